@@ -805,10 +805,11 @@ class Array(Tuple):
             if ctx.dialect in (Dialects.POSTGRESQL, Dialects.REDSHIFT):
                 sql = "ARRAY[{}]".format(values) if len(values) > 0 else "'{}'"
 
-            return format_alias_sql(sql, self.alias, ctx)
+            return format_alias_sql(sql, self.alias, ctx) if ctx.with_alias else sql
 
         param = ctx.parameterizer.create_param(self.original_value)
-        return format_alias_sql(param.get_sql(ctx), self.alias, ctx)
+        sql = param.get_sql(ctx)
+        return format_alias_sql(sql, self.alias, ctx) if ctx.with_alias else sql
 
 
 class Bracket(Tuple):
